@@ -39,6 +39,7 @@ import (
 	"fmt"
 	"os"
 	"testing"
+	"time"
 )
 
 type vCase struct {
@@ -59,14 +60,17 @@ func TestVerifReplay(t *testing.T) {
 	if err := json.Unmarshal(data, &cases); err != nil {
 		t.Fatal(err)
 	}
+	blocked := map[string]bool{}
 	for _, c := range cases {
 		fn := vHarnessFns[c.Harness]
-		if fn == nil {
+		if fn == nil || blocked[c.Harness] {
 			continue
 		}
 		vReset(c.Model)
 		stopped := ""
-		func() {
+		done := make(chan struct{})
+		go func() {
+			defer close(done)
 			defer func() {
 				if r := recover(); r != nil {
 					if s, ok := r.(vStop); ok {
@@ -79,6 +83,16 @@ func TestVerifReplay(t *testing.T) {
 			}()
 			fn()
 		}()
+		select {
+		case <-done:
+		case <-time.After(1500 * time.Millisecond):
+			// the real code waits for something only the running server provides (e.g. the unexported outbox consumer):
+			// this harness cannot be run natively; its remaining cases are skipped
+			blocked[c.Harness] = true
+			bo, _ := json.Marshal(map[string]interface{}{"case": c.Name, "failed": []string{}, "observed": map[string]string{}, "stopped": "blocked natively"})
+			fmt.Printf("VERIF-RESULT %s\n", bo)
+			continue
+		}
 		out, _ := json.Marshal(map[string]interface{}{"case": c.Name, "failed": vFailedIDs, "observed": vObserved, "stopped": stopped})
 		fmt.Printf("VERIF-RESULT %s\n", out)
 	}
@@ -113,8 +127,8 @@ func replayAll(cfg *RunConfig, ld *Loaded, runs []*HarnessRun) *ReplayResult {
 		for _, f := range h.Failures {
 			cases = append(cases, &replayCase{Name: "fail:" + h.Name + "/" + f.ID, Harness: h.Name, Model: modelToStrings(f.Model), expect: f.ID})
 		}
-		if h.UsedOverrides {
-			continue // paths that ran on engine-only stubs cannot be compared with a native run
+		if h.NonFaithful || h.EngineOnlyAPI {
+			continue // paths that ran on engine-only stubs or engine-only harness functions cannot be compared with a native run
 		}
 		for i, tr := range h.Traces {
 			cases = append(cases, &replayCase{Name: fmt.Sprintf("trace:%s/%d", h.Name, i), Harness: h.Name, Model: modelToStrings(tr.Model), obs: tr.Observed})
@@ -149,7 +163,7 @@ func replayAll(cfg *RunConfig, ld *Loaded, runs []*HarnessRun) *ReplayResult {
 					repro = true
 				}
 			}
-			if strings.Contains(res.Stopped, "assumption violated") {
+			if strings.Contains(res.Stopped, "assumption violated") || strings.Contains(res.Stopped, "blocked natively") {
 				repro = false
 			}
 			rr.Failed[key] = repro
@@ -165,6 +179,10 @@ func replayAll(cfg *RunConfig, ld *Loaded, runs []*HarnessRun) *ReplayResult {
 			continue
 		}
 		// trace comparison
+		if strings.Contains(res.Stopped, "blocked natively") {
+			rr.TracesSkipped++
+			continue
+		}
 		if strings.Contains(res.Stopped, "assumption violated") {
 			// the native run asked for an input the symbolic path never drew (e.g. a different number of reads
 			// because the runtime grows buffers differently): not comparable, neither agreement nor disagreement
